@@ -474,3 +474,57 @@ Theorem expected_step_semantics d s vs :
   List.length vs = N.to_nat (count (bs_field s)) ->
   shape_hops d (xs_shape (expected_step s)) vs = Some (step_hops s vs).
 Proof. intros ND Hin Hs Hl. cbn [expected_step xs_shape shape_hops]. now apply step_calls_hops. Qed.
+
+(** ** C06: what the associated constants evaluate to
+
+    [cinit_value] is the model of const evaluation for the four initialiser shapes; [uN::new(v)] fails (a compile
+    error in const context) when [v] does not fit.  With the constants the model expects, [ZERO] is 0 and
+    [DEFAULT] — hence [new()] and [Default::default()], whose bodies are [Self::DEFAULT] — carry exactly the
+    declared value, including bits no field covers. *)
+Definition dval_value (d : decl) (v : dval) : option N :=
+  match v with
+  | DVLit n => Some n
+  | DVIdent s => match d_default d with Some (DConst name n) => if String.eqb s name then Some n else None | _ => None end
+  end.
+
+Definition arb_new (arb : option N) (W : N) (v : N) : option N :=
+  match arb with
+  | None => if v <? 2 ^ W then Some v else None          (* a literal / constant of the native type *)
+  | Some n => if (n =? W) && (v <? 2 ^ n) then Some v else None   (* uN::new(v) asserts v <= MAX *)
+  end.
+
+Definition cinit_value (d : decl) (c : cinit) : option N :=
+  match c with
+  | CIZero arb => arb_new arb (d_W d) 0
+  | CIDefRaw arb v => match dval_value d v with Some n => arb_new arb (d_W d) n | None => None end
+  | CIDefault =>
+      match d_default d with
+      | Some df => arb_new (arb_of (d_W d)) (d_W d) (default_value df)
+      | None => None
+      end
+  | CIOther => None
+  end.
+
+Lemma arb_new_ok W v : v < 2 ^ W -> arb_new (arb_of W) W v = Some v.
+Proof.
+  intros Hv. unfold arb_new, arb_of. destruct (is_native W).
+  - destruct (N.ltb_spec v (2 ^ W)); [reflexivity|lia].
+  - rewrite N.eqb_refl. destruct (N.ltb_spec v (2 ^ W)); [reflexivity|lia].
+Qed.
+
+Theorem C06_constants_carry_the_declared_value d :
+  (match d_default d with Some df => default_value df < 2 ^ d_W d | None => True end) ->
+  forall c, In c (expected_consts d) ->
+  cinit_value d (c_init c) =
+  Some (if String.eqb (c_name c) "ZERO" then 0
+        else match d_default d with Some df => default_value df | None => 0 end).
+Proof.
+  intros Hv c Hc. unfold expected_consts in Hc. destruct Hc as [<-|Hc].
+  - cbn [c_init c_name cinit_value String.eqb Ascii.eqb Bool.eqb]. apply arb_new_ok. apply pow2_pos.
+  - destruct (d_default d) as [df|] eqn:Ed; [|destruct Hc].
+    destruct Hc as [<-|[<-|[]]]; cbn [c_init c_name cinit_value String.eqb Ascii.eqb Bool.eqb].
+    + unfold dval_value, dval_of. rewrite Ed. destruct df as [n|name n]; cbn [default_value] in *.
+      * now apply arb_new_ok.
+      * rewrite String.eqb_refl. now apply arb_new_ok.
+    + rewrite Ed. now apply arb_new_ok.
+Qed.
